@@ -1,4 +1,5 @@
 import PtnModel.Proofs.BipKoenig
+import PtnModel.Proofs.BipTotal
 import PtnModel.Proofs.BipExamples
 /-!
 # Property C18 (bipartite matching / vertex cover)
@@ -127,5 +128,42 @@ theorem hk_maximum {g : BGraph} (hg : g.WF) {m : List (Nat × Nat)} (hk : hopcro
 
 /-- non-vacuity of `mvc_returns_of_hk_returns` and `hk_maximum` -/
 example : exK.WF ∧ hopcroftKarp exK = .ok [(0, 0), (2, 1)] := ⟨exK_wf, exK_hk⟩
+
+/-- (f) Termination of the matching routine: on a well-formed graph `hopcroftKarp` never returns an
+error; in particular neither the BFS fuel, nor the DFS fuel, nor the phase fuel of the model runs out
+(every phase whose BFS reaches NIL augments the matching at least once). -/
+theorem hk_total {g : BGraph} (hg : g.WF) : ∃ m, hopcroftKarp g = .ok m :=
+  hopcroftKarp_ok' hg
+
+/-- Termination of the vertex-cover routine: on a well-formed graph `minimumVertexCover` returns a
+value (no fuel exhaustion, and its internal assertion holds). -/
+theorem mvc_total {g : BGraph} (hg : g.WF) : ∃ uc vc, minimumVertexCover g = .ok (uc, vc) := by
+  obtain ⟨m, hk⟩ := hk_total hg
+  exact mvc_ok_of_hk_ok hg hk
+
+/-- C18, all clauses together, for every graph the constructor can build (this includes graphs
+without edges and edge lists with duplicates): both routines return; the matching consists of edges of
+the graph sharing no vertex and is a maximum matching; the cover lists are duplicate-free and within
+range, touch every edge, have as many vertices as the matching has pairs (Koenig), and no vertex cover
+is smaller. -/
+theorem c18_all {numU numV : Int} {edges : List (Int × Int)} {g : BGraph}
+    (h : BGraph.mk' numU numV edges = .ok g) :
+    ∃ m uc vc, hopcroftKarp g = .ok m ∧ minimumVertexCover g = .ok (uc, vc) ∧
+      IsMatching g m ∧ (∀ m', IsMatching g m' → m'.length ≤ m.length) ∧
+      (∀ u ∈ uc, u < g.numU) ∧ (∀ v ∈ vc, v < g.numV) ∧ uc.Nodup ∧ vc.Nodup ∧
+      IsCover g uc vc ∧ uc.length + vc.length = m.length ∧
+      (∀ uc' vc', IsCover g uc' vc' → uc.length + vc.length ≤ uc'.length + vc'.length) := by
+  have hg := (mk'_wf h).1
+  obtain ⟨uc, vc, hc⟩ := mvc_total hg
+  obtain ⟨m, hk, hu, hv, hnu, hnv, hcov, hlen⟩ := mvc_spec hg hc
+  have hm := hopcroftKarp_isMatching hg hk
+  obtain ⟨h1, h2⟩ := weak_duality_optimal hm hcov hlen
+  exact ⟨m, uc, vc, hk, hc, hm, h1, hu, hv, hnu, hnv, hcov, hlen, h2⟩
+
+/-- non-vacuity of `c18_all`: the constructor succeeds on an edge list with a duplicate -/
+example : BGraph.mk' 2 2 [(0, 0), (1, 0), (1, 1), (1, 0)] = .ok exG := exG_mk
+
+/-- the graph without edges is covered as well -/
+example : ∃ g, BGraph.mk' 1 1 [] = .ok g := ⟨_, rfl⟩
 
 end Ptn.C18
